@@ -114,7 +114,13 @@ pub fn parse_board(fen: &str) -> Result<Board, String> {
 /// cannot turn into a false alarm.
 pub fn read_back(b: &Board) -> Position {
     let p = read_back_debug(b);
-    let confirm = |q: &Position| -> Option<bool> { parse_board(&q.to_fen()).ok().map(|x| x == *b) };
+    // `Eq` ignores the clocks, and FEN cannot carry every clock value: confirm with neutral clocks
+    let confirm = |q: &Position| -> Option<bool> {
+        let mut n = q.clone();
+        n.half = 0;
+        n.full = 1;
+        parse_board(&n.to_fen()).ok().map(|x| x == *b)
+    };
     match confirm(&p) {
         Some(true) | None => p,
         Some(false) => {
